@@ -295,6 +295,10 @@ def rule_R13_desugar(text):
             if z and len(names) == 2:
                 hit = (mt.start(), bo, z.group(1), names[0], names[1])
                 break
+            z = re.fullmatch(r'([\w.]+)\.iter\(\)\.enumerate\(\)', hdr)
+            if z and len(names) == 2:
+                hit = (mt.start(), bo, z.group(1), names[0], names[1], 'shared')
+                break
             z = re.fullmatch(r'(.+?)\.iter_mut\(\)', hdr) or re.fullmatch(r'&mut (\w+)', hdr)
             if z and len(names) == 1:
                 hit = (mt.start(), bo, z.group(1), None, names[0])
